@@ -17,6 +17,7 @@ import AM.Lemmas.MatcherUTF8RT
 import AM.Lemmas.MatcherTotal
 import AM.Lemmas.MatcherFallbackRT
 import AM.Lemmas.MatcherListRT
+import AM.Lemmas.MatcherClassicListRT
 
 namespace AM.Mt
 open AM
@@ -62,6 +63,17 @@ theorem utf8_roundtrip_list (ip : Nat → Bool) (hp : ip 10 = false) (compiles :
   obtain ⟨n, rfl⟩ := valid_exists_chars hw.name
   obtain ⟨v, rfl⟩ := valid_exists_chars hw.value
   exact readsAs_print ip hp compiles op n v hw.re
+
+/-- Classic mode, lists: `labels.ParseMatchers(ms.String()) = ms` when every name is a
+    classic label name (the comma splitter cuts exactly between the matchers). -/
+theorem classic_roundtrip_list (ip : Nat → Bool) (compiles : Str → Bool) (ms : List Matcher)
+    (h : ∀ m ∈ ms, WellFormed compiles m) (hn : ∀ m ∈ ms, classicName m.name = true) :
+    classicMatchers compiles (printList ip ms) = .ok ms := by
+  apply classicMatchers_printList ip compiles ms hn
+  · intro m hm
+    exact valid_exists_chars (h m hm).value
+  · intro m hm
+    exact classic_roundtrip ip compiles m (h m hm) (hn m hm)
 
 /-- the pinned printer differs from the repaired one only for the empty name -/
 theorem printPinned_eq_print (ip : Nat → Bool) (m : Matcher) (h : m.name ≠ []) :
